@@ -6,6 +6,16 @@ from harness.check import Component
 
 LEAN_TARGETS = ["Aiortc.Props.C17"]
 DRIVERS = ["Serial"]
+MANIFEST = {
+    "technique": "Lean 4 theorems (omega) over Gen.Serial regenerated from utils.py by AST translation + differential run of the generated defs",
+    "text": "The serial-number laws (irreflexive, antisymmetric off the half point, consistent with modular addition, translation invariant, "
+            "windowed transitivity; TSN successor/predecessor inverse) are Lean theorems for ALL integers in range, about Lean defs that "
+            "are re-translated from src/aiortc/utils.py and rtcsctptransport.py on every run, so a changed comparison re-checks every theorem. "
+            "The translated defs are also executed against the Python functions on boundary-biased pairs.",
+    "note": "Part 2 of C17 (origin-independence of the stateful components) is carried by the per-component theorems listed in DESIGN.md §2/C17; "
+            "components whose model is not built yet are named there.",
+    "design_ref": "DESIGN.md §2 C17",
+}
 ASSUMPTIONS = [
     "serial laws are stated for operands in the wire range [0, 2^16) resp. [0, 2^32); antisymmetry excludes pairs exactly half the space apart (as the property does)",
 ]
